@@ -1028,6 +1028,31 @@ def rule_R41_bool_then_some(text, log):
         out = out[:rs] + new + pad + out[cl + 1:]
 
 
+def rule_R42_vec_extend_option(text, log):
+    """`V.extend(E);` -> `vx_extend_opt(&mut V, E);` (prelude: appends the value of an `Option`, which iterates over zero or one
+    element; an argument of another type no longer type-checks: undecided)"""
+    out = text
+    rx = re.compile(r'\.\s*extend\s*\(')
+    pos = 0
+    while True:
+        mask = code_mask(out)
+        mm = next((m for m in rx.finditer(out) if m.start() >= pos and mask[m.start()]), None)
+        if not mm:
+            return out
+        op = mm.end() - 1
+        cl = match_brace(out, mask, op)
+        rs = _recv_start(out, mask, mm.start())
+        recv = norm_ws(out[rs:mm.start()])
+        arg = out[op + 1:cl].strip()
+        if not re.match(r'^[A-Za-z_][\w.]*$', re.sub(r'\s*\.\s*', '.', recv)) or not re.match(r'\s*;', out[cl + 1:]):
+            pos = mm.end()
+            continue
+        new = 'vx_extend_opt(&mut %s, %s)' % (re.sub(r'\s*\.\s*', '.', recv), arg)
+        log.append(('R42', norm_ws(out[rs:cl + 1])[:120], norm_ws(new)[:160]))
+        out = out[:rs] + new + out[cl + 1:]
+        pos = rs + 1
+
+
 def rule_R32_or_else(text, log):
     """`OPT.or_else(|| B)` -> `(match OPT { Some(vx_v) => Some(vx_v), None => B })` (definition of Option::or_else)"""
     out = text
@@ -1635,7 +1660,7 @@ class Unit(object):
         self.lost_aids = []
         self.gone_fns = []
         self.late_hints = False
-        self.rules = set(['R1', 'R2', 'ATTR', 'R4', 'R5', 'R6', 'R10', 'R11', 'R14', 'R15', 'R17', 'R22', 'R23', 'R25', 'R26', 'R27', 'R28', 'R29', 'R30', 'R33', 'R35', 'R36', 'R38', 'R39', 'R40', 'R41'])
+        self.rules = set(['R1', 'R2', 'ATTR', 'R4', 'R5', 'R6', 'R10', 'R11', 'R14', 'R15', 'R17', 'R22', 'R23', 'R25', 'R26', 'R27', 'R28', 'R29', 'R30', 'R33', 'R35', 'R36', 'R38', 'R39', 'R40', 'R41', 'R42'])
         self.unit_props = []
         self.lemmas = []
         self.tmpl_fns = []          # hand-written exec/proof fns in template (name, props)
@@ -1723,6 +1748,8 @@ class Unit(object):
                 text = rule_R36_range_for_each(text, log)
             if 'R40' in self.rules:
                 text = rule_R40_debug_assert_eq(text, log)
+            if 'R42' in self.rules:
+                text = rule_R42_vec_extend_option(text, log)
             if 'R41' in self.rules:
                 text = rule_R41_bool_then_some(text, log)
             if 'R38' in self.rules:
